@@ -30,12 +30,15 @@
       nonzero, inexact in the result format, and tiny *after rounding* (i.e. the
       value rounded to 53 bits with unbounded exponent is still < DBL_MIN).
       Exact subnormals (only reachable with hex input, e.g. "0x1p-1074") do not
-      set ERANGE; "2.2250738585072014e-308"-like inputs slightly below DBL_MIN
-      that round up to DBL_MIN do not set ERANGE either.
+      set ERANGE.  A value below DBL_MIN whose result is DBL_MIN sets ERANGE iff
+      it is still below DBL_MIN after rounding to 53 bits, e.g.
+      "2.2250738585072012e-308" → DBL_MIN with ERANGE, "0x1.fffffffffffffp-1023"
+      → DBL_MIN with ERANGE, but "0x1.fffffffffffff8p-1023" → DBL_MIN, no ERANGE.
     * strtod "nan(chars)": consumed through ')' only when the n-char-sequence
       ([0-9A-Za-z_]*) is immediately followed by ')'; otherwise only "nan" is
       consumed.  The payload is `strtoull(chars, 0)` (base auto-detected, clamped
-      to 2^64-1) masked to 51 bits when that parse consumes the whole sequence.
+      to 2^64-1) masked to 51 bits when that parse consumes the whole sequence;
+      if that strtoull overflows, its errno=ERANGE leaks out of strtod (modelled).
     * no conversion: value +0.0 (even after a '-'), consumed 0.
     * `istream >> double`: failbit iff the accumulated text is not entirely a
       strtod number (e.g. "1e", "1e+", "-", ".") or the result is ±inf
@@ -217,17 +220,17 @@ def ratToBits (neg : Bool) (n d : Nat) : UInt64 × Bool :=
       let (q0, inexact) := scaledRound2 n d ulpExp
       -- carry out of the 53-bit significand
       let (q, ue) := if q0 == pow2_53 then (pow2_52, ulpExp + 1) else (q0, ulpExp)
+      -- tiny after rounding: value < DBL_MIN and still < DBL_MIN once rounded to
+      -- 53 bits with unbounded exponent range (x86: tininess detected after rounding)
+      let tiny :=
+        decide (e < -1022) &&
+          (if e == -1023 then (scaledRound2 n d (e - 52)).1 != pow2_53 else true)
       if q ≥ pow2_52 then
         let biased := ue + 1075
         if biased ≥ 2047 then (mkSign neg infBits, true)
-        else
-          -- normal result; it may still come from a value below DBL_MIN that
-          -- rounded up to DBL_MIN, which is not "tiny after rounding".
-          (mkSign neg (biased.toNat * pow2_52 + (q - pow2_52)), false)
+        else (mkSign neg (biased.toNat * pow2_52 + (q - pow2_52)), inexact && tiny)
       else
-        -- subnormal or zero result (e < -1022)
-        let tiny :=
-          if e == -1023 then (scaledRound2 n d (e - 52)).1 != pow2_53 else true
+        -- subnormal or zero result
         (mkSign neg q, inexact && tiny)
 
 def ratToFloat (neg : Bool) (n d : Nat) : Float × Bool :=
@@ -273,21 +276,23 @@ def startsWithCI (pat : List Char) (s : List Char) : Bool :=
 def isNCharSeq (c : Char) : Bool := isAlnum c || c == '_'
 
 /-- glibc `strtoull(s, &end, 0)` restricted to inputs made of `[0-9A-Za-z_]`
-(no sign / whitespace possible): returns (value clamped to 2^64-1, consumed). -/
-def strtoullAuto (s : List Char) : Nat × Nat :=
-  let clamp (v : Nat) : Nat := if v ≥ pow2_64 then pow2_64 - 1 else v
+(no sign / whitespace possible): returns (value clamped to 2^64-1, consumed,
+overflow i.e. errno = ERANGE). -/
+def strtoullAuto (s : List Char) : Nat × Nat × Bool :=
+  let clamp (v : Nat) (used : Nat) : Nat × Nat × Bool :=
+    if v ≥ pow2_64 then (pow2_64 - 1, used, true) else (v, used, false)
   match s with
   | '0' :: x :: rest =>
     if (x == 'x' || x == 'X') && (match rest with | c :: _ => isHexDigit c | [] => false) then
       let ds := rest.takeWhile isHexDigit
-      (clamp (digitsToNat 16 ds), 2 + ds.length)
+      clamp (digitsToNat 16 ds) (2 + ds.length)
     else
       let ds := (x :: rest).takeWhile (fun c => decide ('0'.toNat ≤ c.toNat) && decide (c.toNat ≤ '7'.toNat))
-      (clamp (digitsToNat 8 ds), 1 + ds.length)
-  | ['0'] => (0, 1)
+      clamp (digitsToNat 8 ds) (1 + ds.length)
+  | ['0'] => (0, 1, false)
   | _ =>
     let ds := s.takeWhile isDigit
-    (clamp (digitsToNat 10 ds), ds.length)
+    clamp (digitsToNat 10 ds) ds.length
 
 /-- Body of strtod after whitespace and sign. `none` = no conversion. -/
 def strtodBody (neg : Bool) (s : List Char) : Option (UInt64 × Nat × Bool) :=
@@ -356,9 +361,10 @@ def strtodBody (neg : Bool) (s : List Char) : Option (UInt64 × Nat × Bool) :=
       let seq := r.takeWhile isNCharSeq
       match r.drop seq.length with
       | ')' :: _ =>
-        let (mant, used) := strtoullAuto seq
+        -- glibc calls strtoull on the sequence; its ERANGE side effect leaks out
+        let (mant, used, ovf) := strtoullAuto seq
         let payload := if used == seq.length then mant % (2 ^ 51) else 0
-        some (mkSign neg (qnanBits + payload), 3 + 1 + seq.length + 1, false)
+        some (mkSign neg (qnanBits + payload), 3 + 1 + seq.length + 1, ovf)
       | _ => some (mkSign neg qnanBits, 3, false)
     | _ => some (mkSign neg qnanBits, 3, false)
   else none
@@ -405,20 +411,18 @@ def strtol10 (s : List Char) : Int × Nat × Bool :=
 /-! ## libstdc++ istream extractors -/
 
 /-- Main accumulation loop of `num_get::_M_extract_float` ("C" locale branch).
-`acc` is the accumulated text reversed. Returns (acc, unread rest). -/
-def accFloatMain : List Char → List Char → Bool → Bool → Bool → List Char × List Char
-  | [], acc, _, _, _ => (acc, [])
-  | c :: cs, acc, fm, fd, fs =>
-    if isDigit c then accFloatMain cs (c :: acc) true fd fs
-    else if c == '.' && !fd && !fs then accFloatMain cs ('.' :: acc) fm true fs
-    else if (c == 'e' || c == 'E') && !fs && fm then
-      match cs with
-      | [] => ('e' :: acc, [])
-      | c2 :: cs2 =>
-        if c2 == '+' || c2 == '-' then accFloatMain cs2 (c2 :: 'e' :: acc) fm fd true
-        else accFloatMain (c2 :: cs2) ('e' :: acc) fm fd true
+`acc` is the accumulated text reversed; `fm`/`fd`/`fs` = found mantissa / decimal
+point / exponent marker; `afterE` = the previous character was the exponent
+marker (so one sign character is accepted).  Returns (acc, unread rest).
+Structural recursion on the input. -/
+def accFloatMain : List Char → List Char → Bool → Bool → Bool → Bool → List Char × List Char
+  | [], acc, _, _, _, _ => (acc, [])
+  | c :: cs, acc, fm, fd, fs, afterE =>
+    if afterE && (c == '+' || c == '-') then accFloatMain cs (c :: acc) fm fd fs false
+    else if isDigit c then accFloatMain cs (c :: acc) true fd fs false
+    else if c == '.' && !fd && !fs then accFloatMain cs ('.' :: acc) fm true fs false
+    else if (c == 'e' || c == 'E') && !fs && fm then accFloatMain cs ('e' :: acc) fm fd true true
     else (acc, c :: cs)
-termination_by l => l.length
 
 /-- `_M_extract_float`: (accumulated text, unread rest). -/
 def accFloat (s : List Char) : List Char × List Char :=
@@ -430,7 +434,7 @@ def accFloat (s : List Char) : List Char × List Char :=
   let s2 := s1.drop zs.length
   let fm := !zs.isEmpty
   let acc1 := if fm then '0' :: acc0 else acc0
-  let (acc, rest) := accFloatMain s2 acc1 fm false false
+  let (acc, rest) := accFloatMain s2 acc1 fm false false false
   (acc.reverse, rest)
 
 /-- `istream >> double` raw result: (failbit, bits stored in the variable
